@@ -217,12 +217,38 @@ def add_forcing(spec, draw):
     return spec
 
 
+@st.composite
+def relaxation_spec(draw):
+    """1-2 van der Pol type relaxation oscillators (x' = mu*(x - x**3/3 - w) + u, w' = x/mu), optionally coupled through
+    x -> u.  Unlike the contractive generated models these make adaptive solvers reject steps."""
+    n = draw(st.integers(1, 2))
+    ops, ntypes, nodes = {}, {}, []
+    for i in range(n):
+        mu = draw(st.sampled_from([3.0, 5.0, 8.0]))
+        x0 = draw(st.sampled_from([2.0, 1.0, -1.5, 0.5]))
+        X = ["var", "x"]
+        ops[f"vdp{i}"] = {
+            "vars": [["x", "state", x0], ["w", "state", round(0.1 + 0.2 * i, 3)], ["mu", "const", mu], ["u", "input", 0.0]],
+            "eqs": [["x", True, ["bin", "+", ["bin", "*", ["var", "mu"],
+                                              ["bin", "-", ["bin", "-", X, ["bin", "/", ["pow", X, 3], ["num", 3.0]]], ["var", "w"]]],
+                                 ["var", "u"]], draw(st.integers(0, 2))],
+                    ["w", True, ["bin", "/", X, ["var", "mu"]], draw(st.integers(0, 2))]],
+            "out": "x"}
+        ntypes[f"osc{i}"] = {"ops": [f"vdp{i}"], "ov": {}}
+        nodes.append([f"p{i}", f"osc{i}"])
+    edges = []
+    if n == 2 and draw(st.booleans()):
+        edges.append({"s": "p0/vdp0/x", "t": "p1/vdp1/u", "w": draw(st.sampled_from([0.5, -0.3, 1.0])), "d": None, "sp": None,
+                      "et": None, "scope": ""})
+    return {"ops": ops, "ntypes": ntypes, "nodes": nodes, "edges": edges, "etypes": {}}
+
+
 class ConvergenceArm(Arm):
     name = "convergence"
     case_timeout = 60
     budget = {"quick": 160, "thorough": 2500}
     min_per_shard = 8
-    required_labels = ("time_dependent", "scipy:RK45", "scipy:LSODA", "euler", "heun")
+    required_labels = ("time_dependent", "scipy:RK45", "scipy:LSODA", "euler", "heun", "relaxation_oscillator")
 
     def strategy(self, ctx):
         @st.composite
@@ -230,13 +256,17 @@ class ConvergenceArm(Arm):
             spec = draw(gen.model_spec({"leak": True, "max_types": 2, "max_ops": 2, "max_nodes": 3, "max_edges": 3,
                                         "depths": [0, 0, 1], "expr_depth": 2, "collision": False,
                                         "funcs": ["sin", "cos", "tanh", "sigmoid", "arctan"], "pow": False}))
+            stiff = draw(st.integers(0, 4)) == 0
+            if stiff:
+                spec = draw(relaxation_spec())
             forced = draw(st.booleans())
             if forced:
                 spec = add_forcing(spec, draw)
-            solver = draw(st.sampled_from(["scipy:RK45", "scipy:RK23", "scipy:DOP853", "scipy:LSODA", "euler", "heun"]))
-            T = draw(st.sampled_from([0.5, 1.0, 2.0]))
+            solver = draw(st.sampled_from(["scipy:RK45", "scipy:RK23", "scipy:DOP853", "scipy:LSODA"] +
+                                          ([] if stiff else ["euler", "heun"])))
+            T = draw(st.sampled_from([2.0, 4.0] if stiff else [0.5, 1.0, 2.0]))
             n_out = draw(st.sampled_from([5, 10, 20]))
-            return {"spec": spec, "cfg": {"solver": solver, "T": T, "n_out": n_out, "forced": forced,
+            return {"spec": spec, "cfg": {"solver": solver, "T": T, "n_out": n_out, "forced": forced, "stiff": stiff,
                                           "vectorize": False, "cutoff": draw(st.sampled_from([0.0, 0.0, 0.25 * T]))}}
         from ..finding_predicates import repair_case
         return case().map(lambda c: repair_case(c, ctx))
@@ -253,7 +283,7 @@ class ConvergenceArm(Arm):
         sp = rm.state_paths
         T, n_out, solver = cfg["T"], cfg["n_out"], cfg["solver"]
         dts = T / n_out
-        res.labels = [solver] + (["time_dependent"] if cfg["forced"] else []) + \
+        res.labels = [solver] + (["time_dependent"] if cfg["forced"] else []) + (["relaxation_oscillator"] if cfg.get("stiff") else []) + \
                      ["repaired:" + r for r in case.get("_repaired", [])]
         res.nontrivial = bool(cfg["forced"]) or cfg["cutoff"] > 0 or n_out < T / 1e-3
         y0 = np.array([rm.y0()[p] for p in sp])
@@ -298,14 +328,25 @@ class ConvergenceArm(Arm):
         try:
             if solver.startswith("scipy"):
                 method = solver.split(":")[1]
-                idx, vals = simulate(1e-3, "scipy", method=method, rtol=1e-8, atol=1e-10)
+                rtol, atol, bound = (1e-6, 1e-8, 8e-5) if cfg.get("stiff") else (1e-8, 1e-10, 2e-5)
+                if cfg.get("stiff"):
+                    # relaxation oscillators: the error constant of a method is problem dependent, so the bound is also
+                    # tied to what the same scipy method achieves on the reference vector field with the same settings
+                    with np.errstate(all="ignore"):
+                        own = solve_ivp(f, (0.0, T), y0, method=method, rtol=rtol, atol=atol, t_eval=times, first_step=1e-3)
+                    if not own.success:
+                        res.rejected = "scipy fails on the reference vector field"
+                        return res
+                    e_own = float(np.max(np.abs(own.y.T - ref) / (1.0 + np.abs(ref))))
+                    bound = max(bound, 10 * e_own)
+                idx, vals = simulate(1e-3, "scipy", method=method, rtol=rtol, atol=atol)
                 e = err(idx, vals)
                 if e is None:
                     res.violate("time-index:adaptive", f"index {idx[:5].tolist()} is not k*dts (dts={dts})")
-                elif e > 2e-5:
+                elif e > bound:
                     res.violate(f"adaptive-solution-off:{'forced' if cfg['forced'] else 'autonomous'}",
-                                f"scipy {method}: max rel. deviation from the true solution {e:.3g} (> 2e-5) at the "
-                                f"returned time points")
+                                f"scipy {method} (rtol={rtol:g}): max rel. deviation from the true solution {e:.3g} "
+                                f"(> {bound:.3g}) at the returned time points")
             else:
                 dt1 = dts / 20
                 idx1, v1 = simulate(dt1, solver)
